@@ -144,6 +144,8 @@ class Sh:
         for _ in range(n):
             g = ml.Gen(r, r.choice(["loops", "errors", "functions"]))
             funcs, prog = g.program()
+            if ml.bounded(funcs, prog) is None:      # e.g. exponential string growth: memory exhaustion is not the subject here
+                bump(self.res, "generated_unbounded_discarded"); continue
             self.roundtrip(ml.render(funcs, prog, r), "generated", "|generated")
             if self.res["counters"].get("worker_crashes", 0) > CRASH_BUDGET: return
         base = corpus.harvest(deterministic=True)
